@@ -13,11 +13,33 @@ MATCHING = {'search', 'match', 'fullmatch', 'findall', 'finditer', 'sub', 'subn'
 T_MAX = 0.5      # same order of magnitude as the documented 50 ms
 
 
+_F = None
+
+
+def _compiled_modvar(t) -> Optional[str]:
+    """'re' / 'regex' if the module-level variable holds a pattern compiled at import time."""
+    import ast as _ast
+    if not (isinstance(t, tuple) and t[:2] == ('ref', 'modvar')) or _F is None:
+        return None
+    mod, _, var = t[2].rpartition('.')
+    m = _F.modules.get(mod)
+    vals = m.assigns.get(var) if m else None
+    if vals and len(vals) == 1 and isinstance(vals[0], _ast.Call):
+        r = _F.resolve_expr(m, vals[0].func)
+        if r[0] == 'ext' and r[1] in ('re.compile', 'regex.compile', 'regex.Regex'):
+            return r[1].split('.')[0]
+    return None
+
+
 def engine_call(e: Event) -> Optional[Tuple[str, str]]:
     """('regex'|'re', entry point) if the event calls a regular-expression engine."""
     if e.kind != 'call':
         return None
     f = freeze(e.func)
+    if isinstance(f, tuple) and f and f[0] == 'attr' and f[2] in MATCHING:
+        eng = _compiled_modvar(f[1])
+        if eng:
+            return (eng, 'compiled.' + f[2])
     if isinstance(f, tuple) and f[:2] == ('ref', 'ext'):
         mod, _, fn = f[2].rpartition('.')
         if mod in ('regex', 're') and fn in MATCHING:
@@ -32,6 +54,8 @@ def engine_call(e: Event) -> Optional[Tuple[str, str]]:
 
 def check(chk: Check) -> None:
     F = chk.facts
+    global _F
+    _F = F
     R1 = chk.rule('C05.R1', 'every call into the regex engine reachable from the function table passes timeout= and the '
                             'value resolves to a numeric constant t with 0 < t <= 0.5 s', floor=3)
     R2 = chk.rule('C05.R2', 'no untimed engine: no call into stdlib re (which has no timeout) from any function reachable '
@@ -90,6 +114,9 @@ def check(chk: Check) -> None:
                     depth = len(e.in_ctx('loop')) + len(e.in_ctx('comp'))
                     if depth >= 2:
                         nested.append('`%s` sits in %d nested loops' % (e.text(), depth))
+                    if depth >= 1 and engine_call(e) is not None:
+                        nested.append('the engine call `%s` sits in a loop: every iteration gets a fresh timeout, so the total '
+                                      'time is (number of iterations) x timeout, not one timeout' % e.text())
             chk.require(not nested, R3, ent.label, fi.where, '; '.join(sorted(set(nested))[:3]) or 'no nested loops around the engine call')
     # R2 self-test + verdict
     ex = ast.parse("import re\ndef f(p, s):\n    return re.search(p, s)\n")
